@@ -4,3 +4,14 @@ from vt.props._units import run_units
 
 def run(ctx, proofs_ok):
     run_units(ctx, proofs_ok)
+
+
+def replay(obj):
+    unit = obj.get("unit") or obj.get("env") or ""
+    from vt.props import c07_fjsp, c07_ffsp
+    if str(unit).startswith(("fjsp", "jssp")) and hasattr(c07_fjsp, "replay"):
+        return c07_fjsp.replay(obj)
+    if hasattr(c07_ffsp, "replay"):
+        return c07_ffsp.replay(obj)
+    import json
+    print(json.dumps(obj, indent=1)[:4000])
